@@ -18,8 +18,8 @@
 (*   - a cleanup callback runs only for a registration whose target was     *)
 (*     collected, that was not unregistered before, at most once.           *)
 (* One action = one entry of the host into the engine (one evaluated        *)
-(* statement, a forced collection, or Context::run_jobs which is also       *)
-(* where boa's SimpleJobExecutor performs ClearKeptObjects).                *)
+(* statement, a forced collection, Context::clear_kept_objects, or          *)
+(* Context::run_jobs followed by it).                                        *)
 (***************************************************************************)
 EXTENDS Naturals, FiniteSets, Sequences
 
@@ -145,6 +145,12 @@ Collect(C) ==
                              THEN [reg[r] EXCEPT !.st = "pending"] ELSE reg[r]]
   /\ UNCHANGED <<made, var, fld, wr, kept, obs>>
 
+(* Context::clear_kept_objects, the host's ClearKeptObjects between two entries *)
+ClearKept ==
+  /\ kept' = {}
+  /\ obs' = <<>>
+  /\ UNCHANGED <<made, alive, var, fld, wr, reg>>
+
 (* Context::run_jobs: cleanup callbacks of any of the pending registrations, then ClearKeptObjects. *)
 Jobs(F) ==
   /\ F \subseteq {r \in Reg : reg[r].st = "pending"}
@@ -163,6 +169,7 @@ Next ==
   \/ ScriptStep
   \/ \E C \in Collectable : C # {} /\ Collect(C)
   \/ \E F \in SUBSET Reg : Jobs(F)
+  \/ ClearKept
 
 Spec == Init /\ [][Next]_vars
 
